@@ -47,6 +47,9 @@ type mediaPlan struct {
 	Events   []mediaEvent   `json:"events"`
 	Faults   bool           `json:"faults"`
 	MaxDisp  int            `json:"maxdisp"` // maximal reordering displacement used
+	// WriteYield: the (simulated) transport write towards a subscriber is a
+	// scheduling point
+	WriteYield bool `json:"writeyield,omitempty"`
 }
 
 // stubClient is a minimal group.Client for the media world.
@@ -169,6 +172,7 @@ type mediaWorld struct {
 	pushed     int
 	pushedMax  int64
 	check      map[string]bool // which oracle families are active
+	focus      string          // the property this run is made for
 }
 
 func mimeOf(codec string) (string, uint32, webrtc.RTPCodecType) {
@@ -278,7 +282,29 @@ func (w *mediaWorld) setup() bool {
 		w.recv = append(w.recv, rs)
 		w.byTrk[dts[0]] = rs
 		ctx := &simrt.CaptureContext{Id: fmt.Sprintf("cap%d", i), Ssrc: uint32(0x9000 + i), Codecs: []webrtc.RTPCodecParameters{cp}}
-		ctx.Sink = func(h *rtpHeader, payload []byte) { rs.captured++ }
+		ctx.YieldOnWrite = w.p.WriteYield
+		ctx.Sink = func(h *rtpHeader, payload []byte) {
+			rs.captured++
+			// what really leaves, after the scheduling point inside the
+			// write: the payload still aliases the buffer the server handed
+			// over.  If it differs from what was handed over, somebody wrote
+			// to a buffer that was being sent.
+			pr := rs.inflight[simrt.CurrentTaskID()]
+			if pr == nil || len(pr.fwd) < len(payload) {
+				return
+			}
+			tail := pr.fwd[len(pr.fwd)-len(payload):]
+			if !bytes.Equal(tail, payload) {
+				c.Count("probe.buffer_changed_during_send", 1)
+				// (in runs made for C03 the retransmission oracle judges the
+				// bytes that really left instead)
+				if w.check["C02"] && w.focus != "C03" {
+					c.Violation("C02.changed-during-send", "receiver %d: the packet handed to the transport for outgoing seqno %d changed before it had been sent (its buffer was reused while the write was in progress): %s", rs.idx, h.SequenceNumber, diffPackets(tail, payload))
+					return
+				}
+				copy(tail, payload) // the other oracles judge what really left
+			}
+		}
 		if _, err := dts[0].VerifLocal().Bind(ctx); err != nil {
 			c.Violation("harness.setup", "Bind: %v", err)
 			return false
@@ -785,7 +811,7 @@ func (w *mediaWorld) judgeBytes(rs *recvState, pr *presentation, after rtpconn.V
 		return false
 	}
 	if fmark && !smark {
-		if !(src.End && (src.Sid == after.Sid || src.Sid == pr.before.Sid || src.Sid == pr.before.WantedSid || pr.overlap)) {
+		if !(src.End && (src.Sid == after.Sid || src.Sid == pr.before.Sid || pr.overlap)) {
 			c.Violation("C02.marker-set", "receiver %d: marker set on source seqno %d (end=%v sid=%d, forwarded layer sid=%d)", rs.idx, src.Seq, src.End, src.Sid, after.Sid)
 			return false
 		}
